@@ -54,18 +54,21 @@ def is_var(obj):
     import puan
     return issubclass(obj.__class__, puan.variable)
 
-def node(obj, tok):
-    """pi(proposition)"""
+def node(obj, tok, _seen=None):
+    """pi(proposition).  Field o numbers the distinct Python objects in traversal order: two occurrences with the same o
+    are one shared object (the sharing structure is part of an object's structure, e.g. for pickling)"""
     import puan
+    seen = {} if _seen is None else _seen
+    o = seen.setdefault(id(obj), len(seen))
     if is_var(obj):
         lo, hi = bounds(obj.bounds)
-        return {"k": "a", "id": tok(obj.id), "lo": lo, "hi": hi}
+        return {"k": "a", "id": tok(obj.id), "lo": lo, "hi": hi, "o": o}
     lo, hi = bounds(obj.bounds)
     dflt = getattr(obj, "default", None) or []
     return {"k": "c", "id": tok(obj.id), "lo": lo, "hi": hi, "sign": I(obj.sign), "value": I(obj.value),
-            "kids": [node(k, tok) for k in obj.propositions], "gen": bool(obj.generated_id),
+            "kids": [node(k, tok, seen) for k in obj.propositions], "gen": bool(obj.generated_id),
             "cls": obj.__class__.__name__, "prio": I(getattr(obj, "prio", -1)),
-            "dflt": [tok(d.id) for d in dflt]}
+            "dflt": [tok(d.id) for d in dflt], "o": o}
 
 def pairs_iv(d, tok):
     """id -> Bounds|tuple|int dictionary as [[id,[lo,hi]],...]"""
